@@ -115,7 +115,12 @@ def _corpus_violations(pid: str, tier: str):
             elif clause == "C18_IdleConverged" and pid == "C18":
                 viols.append(Violation("C18", "C18_NoIdleMetaepoch", f"{CONV_SIG} (trace={r['name']} event={idxs[0]})",
                                        {"events": idxs[:10], "trace": r["name"]}))
-            elif clause in ("C18_IdleAllAsleep", "C18_IdleConverged"):
+            elif clause == "C18_IdleNotOffered" and pid == "C18":
+                viols.append(Violation("C18", "C18_NoIdleMetaepoch",
+                                       "idle metaepoch: every active deme was hibernating and the candidate generator had proposed "
+                                       f"nothing for a sleeping deme, so no round could wake it (trace={r['name']} event={idxs[0]})",
+                                       {"events": idxs[:10], "trace": r["name"]}))
+            elif clause in ("C18_IdleAllAsleep", "C18_IdleConverged", "C18_IdleNotOffered"):
                 pass
             elif clause in ("RunCrashed",) and pid == "C05":
                 viols.append(Violation("C05", "C05_RunCompletes", f"run raised an exception (trace={r['name']})",
@@ -286,10 +291,28 @@ _corpus_prop("C19", ["dumps", "dumps_with_live_cma", "dumps_with_hibernating_dem
                      "dump_at_mc=0", "dump_at_mc=1", "dump_at_mc=2"], with_model=False,
              extra_assume=("the continuation of the restored tree is required to be a valid HMS behaviour, not to equal the live "
                            "continuation (false for CMA demes although nothing is wrong: DESIGN.md 4/C19)",))
-_corpus_prop("C20", ["reports", "reports_best_is_zero", "reports_with_fresh_deme", "reports_with_hibernating_deme",
-                     "reports_with_stopped_deme"], with_model=False,
-             extra_assume=("report text is parsed by the harness (regular layout of format_deme); exceptions raised by query "
-                           "accessors other than summary()/tree() are recorded as their answer, not flagged",))
+_c20_base = _corpus_prop("C20", ["reports", "reports_best_is_zero", "reports_with_fresh_deme", "reports_with_hibernating_deme",
+                                 "reports_with_stopped_deme"], with_model=False,
+                         extra_assume=("report text is parsed by the harness (regular layout of format_deme); exceptions raised by query "
+                                       "accessors other than summary()/tree() are recorded as their answer, not flagged",
+                                       "look pairs: the dense run reads every accessor at every metaepoch boundary, the sparse runs "
+                                       "only at every 2nd / 3rd / 4th; equality of the answers at common boundaries relies on seeded "
+                                       "runs being reproducible (C14)"))
+
+
+@prop("C20")
+def c20(tier: str) -> PropResult:
+    """+ "looking at a tree does not change it": the answers of all accessors at a boundary must not depend on whether
+    the tree was looked at at earlier boundaries (PairTrace.tla, kind "look")"""
+    from .mod_pairs import pairs_stage
+    res = _c20_base(tier)
+    ps = pairs_stage(tier)
+    res.violations += _pair_violations("C20", "look", "C20_LookingDoesNotChange", ps)
+    res.coverage["look_pairs"] = {k: v for k, v in ps["stats"].items() if k.startswith("look")}
+    res.coverage["traces_validated_against_impl"] += 2 * ps["stats"].get("look_pairs", 0)
+    res.vacuity += [k for k in ("look_pairs", "look_runs_with_hibernation", "look_runs_where_a_deme_woke")
+                    if ps["stats"].get(k, 0) == 0]
+    return res
 _corpus_prop("C18", ["deme_snapshots_hibernating", "hibernation_on", "hibernation_off", "levels=3", "rounds_empty"])
 
 
